@@ -106,6 +106,8 @@ class Parser:
             return self.unary()
         if self.accept("*"):
             return ("deref", self.unary())
+        if self.accept("!"):
+            return ("not", self.unary())
         return self.postfix()
 
     def postfix(self):
@@ -186,6 +188,10 @@ class Parser:
             self.expr_paren_skip()
             self.expect(";")
             return ("nop",)
+        if v == "throw":
+            self.next()
+            self.expect(";")
+            return ("throw",)
         if v == "return":
             self.next()
             e = self.expr()
@@ -316,6 +322,7 @@ def clean(src):
     src = strip_comments(src)
     src = re.sub(r"#ifndef NDEBUG.*?#endif", " ", src, flags=re.S)
     src = re.sub(r"\bOPM_HOST_DEVICE\b|\bconstexpr\b|\binline\b", " ", src)
+    src = re.sub(r"\bthrow\b[^;]*;", "throw;", src)
     return src
 
 
@@ -360,6 +367,27 @@ class EvalClass:
         MEMBERS[_n + "AssignS"] = r"Evaluation\s*&\s*operator" + re.escape(_o) + r"=\s*\(\s*const\s+RhsValueType\s*&\s*other\s*\)"
         MEMBERS[_n + "E"] = r"Evaluation\s+operator" + re.escape(_o) + r"\s*\(\s*const\s+Evaluation\s*&\s*other\s*\)"
         MEMBERS[_n + "S"] = r"Evaluation\s+operator" + re.escape(_o) + r"\s*\(\s*const\s+RhsValueType\s*&\s*other\s*\)"
+
+    BOOL_MEMBERS = {
+        "eqS": r"bool\s+operator==\s*\(\s*const\s+RhsValueType\s*&\s*other\s*\)",
+        "eqE": r"bool\s+operator==\s*\(\s*const\s+Evaluation\s*&\s*other\s*\)",
+    }
+    for _o, _n in ((">", "gt"), ("<", "lt"), (">=", "ge"), ("<=", "le")):
+        BOOL_MEMBERS[_n + "S"] = r"bool\s+operator" + re.escape(_o) + r"\s*\(\s*RhsValueType\s+other\s*\)"
+        BOOL_MEMBERS[_n + "E"] = r"bool\s+operator" + re.escape(_o) + r"\s*\(\s*const\s+Evaluation\s*&\s*other\s*\)"
+    _V = r"const\s+RhsValueType\s*&\s*(?:value)?"
+    _X = r"const\s+Evaluation\s*&\s*(?:x)?"
+    FACTORIES = {
+        "createBlank": r"static\s+Evaluation\s+createBlank\s*\(\s*" + _X + r"\s*\)",
+        "createConstantZero": r"static\s+Evaluation\s+createConstantZero\s*\(\s*" + _X + r"\s*\)",
+        "createConstantOne": r"static\s+Evaluation\s+createConstantOne\s*\(\s*" + _X + r"\s*\)",
+        "createVariable2": r"static\s+Evaluation\s+createVariable\s*\(\s*" + _V + r"\s*,\s*int\s*(?:varPos)?\s*\)",
+        "createVariableN": r"static\s+Evaluation\s+createVariable\s*\(\s*int\s+nVars\s*,\s*" + _V + r"\s*,\s*int\s+varPos\s*\)",
+        "createVariableX": r"static\s+Evaluation\s+createVariable\s*\(\s*" + _X + r"\s*,\s*" + _V + r"\s*,\s*int\s+varPos\s*\)",
+        "createConstantN": r"static\s+Evaluation\s+createConstant\s*\(\s*int\s+nVars\s*,\s*" + _V + r"\s*\)",
+        "createConstant1": r"static\s+Evaluation\s+createConstant\s*\(\s*" + _V + r"\s*\)",
+        "createConstantX": r"static\s+Evaluation\s+createConstant\s*\(\s*" + _X + r"\s*,\s*" + _V + r"\s*\)",
+    }
 
     def __init__(self, path, kind, n=None):
         """kind: 'unrolled' (n = number of derivatives), 'loop', 'dynamic'"""
@@ -407,6 +435,11 @@ class EvalClass:
         self.body = {}
         for key, rx in self.MEMBERS.items():
             self.body[key] = parse_body(find_function(src, rx, f"{self.fname}: {key}"))
+        for key, rx in list(self.BOOL_MEMBERS.items()) + list(self.FACTORIES.items()):
+            self.body[key] = parse_body(find_function(src, rx, f"{self.fname}: {key}"))
+        for what in ("const\\s+Evaluation\\s*&", "const\\s+RhsValueType\\s*&"):
+            if not re.search(r"bool\s+operator!=\s*\(\s*" + what.replace("\\\\", "\\") + r"\s*other\s*\)\s*const\s*\{\s*return\s*!\s*operator==\s*\(\s*other\s*\)\s*;", src):
+                raise TranslateError(f"{self.fname}: operator!= is not `!operator==(other)`")
         # constructors
         if kind == "dynamic":
             self.body["ctorNS"] = parse_body(find_function(
@@ -446,6 +479,31 @@ class EvalClass:
             return r.value
         return None
 
+    def call_bool(self, key, this, arg):
+        """Run the boolean member `key` (comparison operator) -> boolean expression."""
+        env = Env(self, this)
+        env.member_cmp = True
+        env.vars["other"] = ("obj", arg) if isinstance(arg, Obj) else ("val", arg)
+        return env.run_bool(self.body[key])
+
+    def call_factory(self, key):
+        """Run a static factory on (x = inputs a, value = c, varPos, nVars)
+        -> ("throws",) | (guards, Obj)"""
+        env = Env(self, None)
+        env.vars["x"] = ("obj", inputs(self.slots, "a"))
+        env.vars["value"] = ("val", ("sc", "c"))
+        env.vars["varPos"] = ("int", "varPos")
+        env.vars["nVars"] = ("int", "nVars")
+        try:
+            env.run(self.body[key])
+        except Ret as r:
+            if not isinstance(r.value, Obj):
+                raise TranslateError(f"{self.fname}: {key} does not return an Evaluation")
+            return (list(env.guards), r.value)
+        except Throw:
+            return ("throws",)
+        raise TranslateError(f"{self.fname}: {key} does not return")
+
     def construct_from_scalar(self, val, like=None):
         if self.kind == "dynamic":
             if not self.has_scalar_ctor:
@@ -476,11 +534,16 @@ class Untranslatable(Exception):
     pass
 
 
+class Throw(Exception):
+    """the function body throws unconditionally"""
+
+
 class Env:
     def __init__(self, cls, this):
         self.cls, self.this = cls, this
         self.vars = {}          # name -> ("obj", Obj) | ("val", expr) | ("alias", node, env) | ("slot", s) | ("der", s) | ("int", sym)
         self.onehot = None      # set by `data_[varPos + dstart_()] = 1.0`
+        self.guards = []        # conditions of `if (c) throw …;` passed so far (factories)
 
     # ---- expressions
     def slot_of(self, node):
@@ -554,7 +617,23 @@ class Env:
                     return kind[1]
                 if kind[0] == "obj":
                     return kind[1]
+                if kind[0] == "int":
+                    return ("intv", kind[1])
+            if name in ("true", "false"):
+                return ("bool", name == "true")
+            if name == "numDerivs" and self.cls.kind == "loop":
+                return ("intv", "n")
             raise TranslateError(f"{self.cls.fname}: unknown identifier {name}")
+        if t == "not":
+            v = self.ev(node[1])
+            if isinstance(v, Obj):
+                raise TranslateError(f"{self.cls.fname}: `!` applied to an Evaluation")
+            return ("not", v)
+        if t == "call" and not node[2] and (node[1] == ("id", "size") or (
+                node[1][0] == "member" and node[1][2] == "size" and self.obj_of(node[1][1]) is not None)):
+            return ("intv", "n")            # size() of an object of the class under translation
+        if t == "call" and node[1] == ("id", "Evaluation"):
+            return self.construct([self.ev(a) for a in node[2]])
         if t == "deref" and node[1] == ("id", "this"):
             return self.this
         if t == "neg":
@@ -579,6 +658,10 @@ class Env:
             return merge(c, a, b)
         if t == "call":
             f = node[1]
+            if f[0] == "id" and f[1].split("::")[0] == "InnerToolbox" and f[1].split("::")[1] in ("isnan", "isfinite"):
+                return ("pcall", f[1].split("::")[1], [self.scalar(a) for a in node[2]])
+            if f[0] == "id" and f[1] == "ValueTypeToolbox::isSame":
+                return ("pcall", "isSame", [self.scalar(a) for a in node[2]])
             if f[0] == "id" and f[1].startswith("ValueTypeToolbox::"):
                 return ("call", f[1].split("::")[1], [self.scalar(a) for a in node[2]])
             if f[0] == "member" and f[2] == "value" and not node[2]:
@@ -592,7 +675,97 @@ class Env:
             raise TranslateError(f"{self.cls.fname}: Evaluation used where a scalar is expected: {node}")
         return v
 
+    def construct(self, args):
+        """`Evaluation(args…)` as an expression (factories)."""
+        cls = self.cls
+        isint = lambda v: not isinstance(v, Obj) and v[0] == "intv"
+        if cls.kind != "dynamic":
+            if len(args) == 0:
+                return cls.fresh("blank", ZERO)              # data_() value-initialises
+            if len(args) == 1 and isinstance(args[0], Obj):
+                return args[0].copy("copy")
+            if len(args) == 1 and not isint(args[0]):
+                return cls.construct_from_scalar(args[0])
+            if len(args) == 2 and not isint(args[0]) and not isinstance(args[0], Obj) and isint(args[1]):
+                o, onehot = cls.construct_var(args[0])
+                o.onehot = onehot
+                return o
+            raise Untranslatable(f"{cls.fname}: no constructor Evaluation({', '.join('int' if isint(a) else 'value' for a in args)}) "
+                                 "in a statically sized class (does not compile when instantiated)")
+        if len(args) == 1 and isinstance(args[0], Obj):
+            return args[0].copy("copy")
+        if len(args) == 1 and isint(args[0]):
+            return cls.fresh("blank", UNDEF)                 # FastSmallVector(size): content not specified
+        if len(args) == 2 and isint(args[0]) and not isinstance(args[1], Obj):
+            o = cls.fresh("k", ZERO)
+            cls.call("ctorNS", o, args[1])
+            o.sized_by = args[0][1]
+            return o
+        if len(args) == 3 and isint(args[0]) and not isinstance(args[1], Obj) and isint(args[2]):
+            o, onehot = cls.construct_var(args[1])
+            o.onehot = onehot
+            o.sized_by = args[0][1]
+            return o
+        raise Untranslatable(f"{cls.fname}: no constructor for Evaluation({len(args)} arguments) of these kinds")
+
+    def run_bool(self, stmts, cont=None):
+        """Boolean-valued member (comparison operators): statements -> boolean expression.
+        `cont()` is the value when the statement list falls off its end (loop bodies)."""
+        stmts = list(stmts)
+        if not stmts:
+            if cont is None:
+                raise TranslateError(f"{self.cls.fname}: boolean function falls off its end")
+            return cont()
+        st, rest = stmts[0], stmts[1:]
+        t = st[0]
+        if t == "nop":
+            return self.run_bool(rest, cont)
+        if t == "return":
+            v = self.ev(st[1])
+            if isinstance(v, Obj):
+                raise TranslateError(f"{self.cls.fname}: boolean function returns an Evaluation")
+            return v
+        if t == "block":
+            return self.child().run_bool(list(st[1]), lambda: self.run_bool(rest, cont))
+        if t == "if":
+            c = self.ev(st[1])
+            a = self.child().run_bool(st[2], lambda: self.run_bool(rest, cont))
+            b = self.child().run_bool(st[3], lambda: self.run_bool(rest, cont))
+            return a if a == b else ("bite", c, a, b)
+        if t == "for":
+            _, var, lo, hi, body = st
+            kind, slots = self.loop_range(lo, hi, concrete_ok=True)
+            per, exits = {}, set()
+            for sl in slots:
+                sub = self.child()
+                sub.vars[var] = (kind, sl)
+                r = sub.run_bool(body, lambda: ("cont",))
+                # shape: if (c) return <false|true>;  (early exit), otherwise continue
+                if not (r[0] == "bite" and r[2][0] == "bool" and r[3] == ("cont",)):
+                    raise TranslateError(f"{self.cls.fname}: loop in a boolean function is not `if (c) return false/true;`")
+                exits.add(r[2][1])
+                per[sl] = ("not", r[1])
+            if len(exits) != 1:
+                raise TranslateError(f"{self.cls.fname}: loop in a boolean function exits with both truth values")
+            # exit value false: all slots pass && rest;  exit value true: some slot exits || rest
+            return ("all" if not exits.pop() else "nall", per, self.run_bool(rest, cont))
+        if t in ("decl", "set", "expr"):
+            self.step(st)
+            return self.run_bool(rest, cont)
+        raise TranslateError(f"{self.cls.fname}: unsupported statement in a boolean function: {t}")
+
     def compare(self, op, l, r):
+        if getattr(self, "member_cmp", False) and (isinstance(l, Obj) or isinstance(r, Obj)):
+            nm = {"==": "eq", "!=": "ne", "<": "lt", ">": "gt", "<=": "le", ">=": "ge"}[op]
+            if isinstance(l, Obj):
+                return self.cls.call_bool(nm + ("E" if isinstance(r, Obj) else "S"), l, r)
+            return friend_cmp(self.cls, nm, l, r)
+        if op == "!=":
+            lv = l.data[0] if isinstance(l, Obj) else l
+            rv = r.data[0] if isinstance(r, Obj) else r
+            if isinstance(l, Obj) and isinstance(r, Obj):
+                raise TranslateError(f"{self.cls.fname}: Evaluation != Evaluation outside the comparison members")
+            return ("ne", lv, rv)
         # Evaluation comparisons look at value() only (checked shapes of operator< etc. are
         # `return value() < other(.value())`)
         lv = l.data[0] if isinstance(l, Obj) else l
@@ -644,6 +817,11 @@ class Env:
             return
         if t == "return":
             raise Ret(self.ev(st[1]))
+        if t == "throw":
+            raise Throw()
+        if t == "if" and st[2] == [("throw",)] and not st[3]:
+            self.guards.append(self.ev(st[1]))
+            return
         if t == "set":
             _, op, lhs, rhs = st
             if (lhs[0] == "index" and lhs[1] == ("id", "data_") and lhs[2][0] == "bin" and lhs[2][1] == "+"
@@ -760,12 +938,18 @@ class Env:
         sub = Env(self.cls, self.this)
         sub.vars = ChainMap(self.vars)
         sub.parent = self
+        sub.member_cmp = getattr(self, "member_cmp", False)
+        sub.guards = self.guards
         return sub
 
-    def loop_range(self, lo, hi):
+    def loop_range(self, lo, hi, concrete_ok=False):
         """-> (binding kind, [abstract slots])"""
         call = lambda n: ("call", ("id", n), [])
         if self.cls.kind == "unrolled":
+            if concrete_ok and lo == ("num", "0") and hi == call("length_"):
+                return "slot", list(self.cls.slots)
+            if concrete_ok and lo == call("dstart_") and hi == call("dend_"):
+                return "slot", list(self.cls.slots)[1:]
             raise TranslateError(f"{self.cls.fname}: loop in an unrolled specialisation")
         if lo == ("num", "0") and hi == call("length_"):
             return "slot", [0, "i"]
@@ -825,6 +1009,29 @@ def load_friends(repo):
             raise TranslateError(f"Evaluation.hpp: friend operator{op}(scalar, Evaluation) is not `b {rev} a`")
     if not re.search(r"bool\s+operator==\s*\(\s*const\s+RhsValueType\s*&\s*other\s*\)\s*const\s*\{\s*return\s+value\(\)\s*==\s*other\s*;", src):
         raise TranslateError("Evaluation.hpp: operator==(scalar) is not value() == other")
+
+
+FRIEND_CMP = {}
+
+
+def load_friend_cmps(repo):
+    src = clean(open(os.path.join(repo, DD, "Evaluation.hpp")).read())
+    for op, nm in (("<", "lt"), (">", "gt"), ("<=", "le"), (">=", "ge"), ("!=", "ne")):
+        rx = (r"bool\s+operator" + re.escape(op) +
+              r"\s*\(\s*const\s+RhsValueType\s*&\s*a\s*,\s*const\s+Evaluation\s*<\s*ValueType\s*,\s*numVars\s*,\s*staticSize\s*>\s*&\s*b\s*\)")
+        FRIEND_CMP[nm] = parse_body(find_function(src, rx, f"Evaluation.hpp: friend operator{op}(scalar, Evaluation)"))
+
+
+def friend_cmp(cls, nm, a_scalar, b_obj):
+    if nm not in FRIEND_CMP:
+        raise TranslateError(f"Evaluation.hpp: no friend comparison operator for `scalar {nm} Evaluation`")
+    env = Env(cls, None)
+    env.member_cmp = True
+    bb = b_obj.copy("b")
+    bb.const = True
+    env.vars["a"] = ("val", a_scalar)
+    env.vars["b"] = ("obj", bb)
+    return env.run_bool(FRIEND_CMP[nm])
 
 
 def friend_call(cls, nm, a_scalar, b_obj):
@@ -987,6 +1194,187 @@ def translate_class(cls):
     return out, notes
 
 
+# second operator set: self-aliased compound assignment, comparisons, factories -----------------------
+
+SELF_OPS = [("addAssignE", "addSelf"), ("subAssignE", "subSelf"), ("mulAssignE", "mulSelf"), ("divAssignE", "divSelf")]
+CMP_E = ["eqE", "neE", "ltE", "gtE", "leE", "geE"]
+CMP_S = ["eqS", "neS", "ltS", "gtS", "leS", "geS"]
+CMP_F = [("ne", "sne"), ("lt", "slt"), ("gt", "sgt"), ("le", "sle"), ("ge", "sge")]
+OPS2 = {"addSelf": "E", "subSelf": "E", "mulSelf": "E", "divSelf": "E",
+        **{k: "EEb" for k in CMP_E}, **{k: "ESb" for k in CMP_S}, **{k: "SEb" for _, k in CMP_F},
+        "constZero": "", "constOne": "", "constX": "S", "varXBase": "S"}
+
+
+def RB(e, ix, K):
+    """render a boolean expression as a Lean `Bool`"""
+    t = e[0]
+    if t == "bool":
+        return "true" if e[1] else "false"
+    if t in ("lt", "gt", "le", "ge"):
+        return f"decide ({R(e, ix)})"
+    if t == "eq":
+        return f"({R(e[1], ix)} == {R(e[2], ix)})"
+    if t == "ne":
+        return f"({R(e[1], ix)} != {R(e[2], ix)})"
+    if t == "not":
+        return f"(!{RB(e[1], ix, K)})"
+    if t == "bite":
+        return f"(if {RP(e[1], ix)} then {RB(e[2], ix, K)} else {RB(e[3], ix, K)})"
+    if t == "pcall":
+        return "(P." + e[1] + "".join(" " + (x if x[0] == "(" or " " not in x else f"({x})") for x in (R(a, ix) for a in e[2])) + ")"
+    if t in ("all", "nall"):
+        per = e[1]
+        if set(per.keys()) == {"i"} and K is None:
+            per = {0: ("bool", True), "i": per["i"]}          # a loop over the derivatives only
+        if t == "nall":
+            return f"((!{RB(('all', per, ('bool', True)), ix, K)}) || {RB(e[2], ix, K)})"
+        if set(per.keys()) == {0, "i"}:
+            fn = f"fun i => if i.val = 0 then {RB(per[0], ix, K)} else {RB(per['i'], ix, K)}"
+            k = "(n + 1)"
+        elif "i" in per and 0 not in per:
+            raise TranslateError("loop of a comparison operator does not visit the value slot")   # cannot be expressed: report
+        else:
+            slots = sorted(per.keys())
+            if slots != list(range(K + 1)):
+                # a loop that skips slots: unvisited slots are vacuously fine
+                per = {sl: per.get(sl, ("bool", True)) for sl in range(K + 1)}
+                slots = list(range(K + 1))
+            arms = "".join(f" | {sl if sl < K else '_'} => {RB(per[sl], ix, K)}" for sl in slots)
+            fn = f"fun i => match i.val with{arms}"
+            k = str(K + 1)
+        return f"(allSlots {k} ({fn}) && {RB(e[2], ix, K)})"
+    raise TranslateError(f"cannot render boolean {e}")
+
+
+def RP(e, ix):
+    if e[0] in ("pcall", "not"):
+        return f"{RB(e, ix, None)} = true"
+    if e[0] == "ne":
+        return f"({R(e[1], ix)} != {R(e[2], ix)}) = true"
+    return R(e, ix)
+
+
+def arity_text(guards, fname, what):
+    """guards of `create*(int nVars, …)` -> Lean text of the accepted nVars (`Option Int`)"""
+    if not guards:
+        return "none"
+    if len(guards) != 1 or guards[0][0] != "ne" or guards[0][1] != ("intv", "nVars"):
+        raise TranslateError(f"{fname}: {what}: unexpected throw condition {guards}")
+    g = guards[0][2]
+    if g[0] == "num" and g[1].denominator == 1:
+        return f"some {g[1].numerator}"
+    if g == ("intv", "n"):
+        return "some (n : Int)"
+    raise TranslateError(f"{fname}: {what}: unexpected throw condition {guards}")
+
+
+def translate_class2(cls, fns1):
+    """-> (dict leanname -> (kinds, Obj | bool expr), extras dict, notes)"""
+    out, notes = {}, []
+    S = cls.slots
+    for key, nm in SELF_OPS:
+        this = inputs(S, "a").copy("this")
+        cls.call(key, this, this)                      # `x op= x`: other aliases *this
+        out[nm] = ("E", this)
+    a, b, c = inputs(S, "a"), inputs(S, "b"), ("sc", "c")
+    for nm in CMP_E:
+        out[nm] = ("EEb", ("not", cls.call_bool("eqE", a, b)) if nm == "neE" else cls.call_bool(nm, a, b))
+    for nm in CMP_S:
+        out[nm] = ("ESb", ("not", cls.call_bool("eqS", a, c)) if nm == "neS" else cls.call_bool(nm, a, c))
+    for fn, nm in CMP_F:
+        out[nm] = ("SEb", friend_cmp(cls, fn, c, a))
+    # factories
+    const_data = fns1["const"][1].data
+    var_data = fns1["varBase"][1].data
+    extras = {}
+    res = {}
+    for key in cls.FACTORIES:
+        try:
+            res[key] = cls.call_factory(key)
+        except Untranslatable as ex:
+            res[key] = ("untranslatable", str(ex))
+            notes.append((key, str(ex)))
+
+    def plain(key, want_onehot=False, allow_guard=False):
+        r = res[key]
+        if r[0] in ("throws", "untranslatable"):
+            return None
+        guards, o = r
+        if guards and not allow_guard:
+            raise TranslateError(f"{cls.fname}: {key}: unexpected conditional throw")
+        if want_onehot != (getattr(o, "onehot", None) == "varPos+1"):
+            raise TranslateError(f"{cls.fname}: {key}: {'does not set' if want_onehot else 'sets'} the varPos slot")
+        return o
+    for key, nm in (("createConstantZero", "constZero"), ("createConstantOne", "constOne")):
+        o = plain(key)
+        if o is None:
+            raise TranslateError(f"{cls.fname}: {key} has no meaning: {res[key]}")
+        out[nm] = ("", o)
+    o = plain("createConstantX")
+    if o is None or o.data != const_data:
+        raise TranslateError(f"{cls.fname}: createConstant(x, value) is not the constant constructor")
+    out["constX"] = ("S", o)
+    o = plain("createVariableX", want_onehot=True)
+    if o is None or o.data != var_data:
+        raise TranslateError(f"{cls.fname}: createVariable(x, value, varPos) is not the variable constructor")
+    out["varXBase"] = ("S", o)
+    # createBlank: statically sized = value-initialised, dynamic = content not specified
+    o = plain("createBlank")
+    if o is None:
+        raise TranslateError(f"{cls.fname}: createBlank has no meaning")
+    extras["blankZero"] = all(v == ZERO for v in o.data.values())
+    # one-argument forms: usable (static) or throwing (dynamic)
+    for key, ref, oh in (("createConstant1", const_data, False), ("createVariable2", var_data, True)):
+        if res[key] == ("throws",):
+            extras[key] = False
+        else:
+            o = plain(key, want_onehot=oh)
+            if o is None or o.data != ref:
+                raise TranslateError(f"{cls.fname}: {key} is not the corresponding constructor")
+            extras[key] = True
+    # nVars forms
+    r = res["createConstantN"]
+    if r[0] in ("throws", "untranslatable"):
+        raise TranslateError(f"{cls.fname}: createConstant(nVars, value) has no meaning: {r}")
+    if r[1].data != const_data:
+        raise TranslateError(f"{cls.fname}: createConstant(nVars, value) is not the constant constructor")
+    extras["arity"] = arity_text(r[0], cls.fname, "createConstant(nVars, value)")
+    if cls.kind == "dynamic" and getattr(r[1], "sized_by", None) != "nVars":
+        raise TranslateError(f"{cls.fname}: createConstant(nVars, value) does not size the result by nVars")
+    r = res["createVariableN"]
+    if r[0] == "untranslatable":
+        extras["createVariableN"] = False
+    elif r[0] == "throws":
+        raise TranslateError(f"{cls.fname}: createVariable(nVars, value, varPos) always throws")
+    else:
+        if r[1].data != var_data or getattr(r[1], "onehot", None) != "varPos+1":
+            raise TranslateError(f"{cls.fname}: createVariable(nVars, value, varPos) is not the variable constructor")
+        if arity_text(r[0], cls.fname, "createVariable(nVars, value, varPos)") != extras["arity"]:
+            raise TranslateError(f"{cls.fname}: createVariable(nVars, …) and createConstant(nVars, …) accept different nVars")
+        extras["createVariableN"] = True
+    return out, extras, notes
+
+
+def render2(prefix, nm, kinds, val, cls):
+    n = cls.n
+    unrolled = cls.kind == "unrolled"
+    ty = f"Fin {n + 1} → α" if unrolled else "Fin (n + 1) → α"
+    imp = "" if unrolled else " {n : Nat}"
+    par = {"E": f"(a : {ty})", "EEb": f"(a b : {ty})", "ESb": f"(a : {ty}) (c : α)", "SEb": f"(c : α) (a : {ty})",
+           "": "", "S": "(c : α)"}[kinds]
+    if kinds.endswith("b"):
+        ix = ix_concrete if unrolled else ix_abstract
+        return f"def {prefix}.{nm}{imp} {par} : Bool :=\n  {RB(val, ix, n if unrolled else None)}\n"
+    if unrolled:
+        return render_unrolled(f"{prefix}.{nm}", n, par, val) + "\n"
+    return render_abstract(f"{prefix}.{nm}", par, val) + "\n"
+
+
+def bundle2(prefix, n_txt, imp):
+    fields = ", ".join(f"{k} := {prefix}.{k}" for k in OPS2)
+    return f"def {prefix}.ops2{imp} : ADOps2 α {n_txt} :=\n  {{ {fields} }}\n"
+
+
 def params_of(kinds, ty):
     if kinds == "EE":
         return f"(a b : {ty})"
@@ -1058,6 +1446,29 @@ def translate_math(repo, loopcls):
     return out, notes, path
 
 
+def translate_predicates(repo, loopcls):
+    """`MathToolbox<Evaluation>::isSame / isfinite / isnan` (Math.hpp), executed over the abstract slots of the
+    generic class (the struct is one template for all variants; it only uses value(), derivative(i), size())."""
+    src = clean(open(os.path.join(repo, DD, "Math.hpp")).read())
+    S = loopcls.slots
+    out = {}
+    for name, rx, binds in (
+            ("isSame", r"static\s+bool\s+isSame\s*\(\s*const\s+Evaluation\s*&\s*a\s*,\s*const\s+Evaluation\s*&\s*b\s*,\s*Scalar\s+tolerance\s*\)",
+             {"a": ("obj", inputs(S, "a")), "b": ("obj", inputs(S, "b")), "tolerance": ("val", ("sc", "c"))}),
+            ("isfinite", r"static\s+bool\s+isfinite\s*\(\s*const\s+Evaluation\s*&\s*arg\s*\)", {"arg": ("obj", inputs(S, "a"))}),
+            ("isnan", r"static\s+bool\s+isnan\s*\(\s*const\s+Evaluation\s*&\s*arg\s*\)", {"arg": ("obj", inputs(S, "a"))})):
+        body = parse_body(find_function(src, rx, f"Math.hpp: MathToolbox<Evaluation>::{name}"))
+        env = Env(loopcls, None)
+        for k, v in binds.items():
+            env.vars[k] = v
+        out[name] = env.run_bool(body)
+    L = ["/-! ### MathToolbox<Evaluation>::isSame / isfinite / isnan (Math.hpp; `P` = the scalar toolbox predicates) -/\n"]
+    L.append("def M.isSame {n : Nat} (P : Preds α) (a b : Fin (n + 1) → α) (c : α) : Bool :=\n  " + RB(out["isSame"], ix_abstract, None) + "\n")
+    L.append("def M.isfinite {n : Nat} (P : Preds α) (a : Fin (n + 1) → α) : Bool :=\n  " + RB(out["isfinite"], ix_abstract, None) + "\n")
+    L.append("def M.isnan {n : Nat} (P : Preds α) (a : Fin (n + 1) → α) : Bool :=\n  " + RB(out["isnan"], ix_abstract, None) + "\n")
+    return "\n".join(L)
+
+
 # ---------------------------------------------------------------------------------------------
 
 HEADER = """/- GENERATED by translate/densead.py from opm/material/densead/{Evaluation,Evaluation1..12,
@@ -1072,12 +1483,14 @@ set_option linter.unusedVariables false
 namespace OpmVerif.DenseAd.Gen
 
 variable {α : Type} [Add α] [Sub α] [Mul α] [Div α] [Neg α] [OfNat α 0] [OfNat α 1] [OfNat α 2]
-  [LT α] [DecidableLT α] [BEq α]
+  [LT α] [DecidableLT α] [LE α] [DecidableLE α] [BEq α]
 """
 
 
 def generate(repo):
     load_friends(repo)
+    load_friend_cmps(repo)
+    extras_all = {}
     sources = [os.path.join(repo, DD, "Evaluation.hpp")]
     out = [HEADER]
     table = {}          # (variant, leanname) present
@@ -1097,6 +1510,12 @@ def generate(repo):
             out.append(render_unrolled(f"U{n}.{nm}", n, params_of(kinds, f"Fin {n + 1} → α"), obj) + "\n")
         out.append(bundle(f"U{n}", str(n), fns, f"Evaluation{n}.hpp"))
         table[n] = list(fns.keys())
+        fns2, extras, notes2 = translate_class2(cls, fns)
+        for nm, (kinds, val) in fns2.items():
+            out.append(render2(f"U{n}", nm, kinds, val, cls))
+        out.append(bundle2(f"U{n}", str(n), ""))
+        out.append(f"/-- `nVars` accepted by `createConstant(nVars, c)` / `createVariable(nVars, c, varPos)` -/\ndef U{n}.factoryArity : Option Int := {extras['arity']}\n")
+        extras_all[f"U{n}"] = extras
     # loop forms
     for variant, fname, kind in (("L", "Evaluation.hpp", "loop"), ("D", "DynamicEvaluation.hpp", "dynamic")):
         path = os.path.join(repo, DD, fname)
@@ -1114,6 +1533,12 @@ def generate(repo):
             raise TranslateError(f"{fname}: " + "; ".join(f"{nm}: {why}" for nm, why in notes))
         out.append(f"def {variant}.ops {{n : Nat}} : ADOps α n :=\n  {{ " + ", ".join(f"{k} := {variant}.{k}" for k in ALL_OPS) + " }\n")
         table[variant] = list(fns.keys())
+        fns2, extras, notes2 = translate_class2(cls, fns)
+        for nm, (kinds, val) in fns2.items():
+            out.append(render2(variant, nm, kinds, val, cls))
+        out.append(bundle2(variant, "n", " {n : Nat}"))
+        out.append(f"def {variant}.factoryArity (n : Nat) : Option Int := {extras['arity']}\n")
+        extras_all[variant] = extras
         if variant == "L":
             loopcls = cls
     # math
@@ -1125,10 +1550,23 @@ def generate(repo):
     for nm, why in mnotes:
         out.append(f"/- NOT TRANSLATABLE M.{nm}: {why} -/\n")
         notes_all.append((f"M.{nm}", why))
+    out.append(translate_predicates(repo, loopcls))
+    # createVariable(int nVars, value, varPos) of the statically sized classes
+    un = [k for k in extras_all if k.startswith("U")]
+    flags = {extras_all[k]["createVariableN"] for k in un}
+    if len(flags) != 1:
+        raise TranslateError("createVariable(nVars, value, varPos): the unrolled specialisations disagree on whether it compiles")
+    if not flags.pop():
+        notes_all.append(("U.createVariableN", "no constructor Evaluation(int, value, int) in the statically sized specialisations"))
+    if not extras_all["L"]["createVariableN"]:
+        notes_all.append(("L.createVariableN", "no constructor Evaluation(int, value, int) in the generic statically sized class"))
+    if not extras_all["D"]["createVariableN"]:
+        notes_all.append(("D.createVariableN", "untranslatable"))
     # presence table for the driver / harness
     out.append("/-- functions the translator could not give a meaning (indeterminate reads, ill-typed bodies) -/")
     out.append("def notTranslatable : List String := [" + ", ".join(f'"{k}"' for k, _ in notes_all) + "]\n")
     out.append(dispatchers(table, mfns))
+    out.append(dispatchers2(extras_all))
     out.append("end OpmVerif.DenseAd.Gen\n")
     return {"module": "OpmVerif.Gen.DenseAd", "file": "DenseAd.lean", "text": "\n".join(out), "sources": sources}
 
@@ -1173,6 +1611,61 @@ def dispatchers(table, mfns):
         for nm in fs:
             L.append(f'  | "{nm}" => some (ofFn (M.{nm} (n := n) F {app}))')
         L.append("  | _ => none\n")
+    return "\n".join(L)
+
+
+def dispatchers2(extras_all):
+    L = ["/-! ### second operator set: dispatch for the driver -/\n"]
+    def rows(fmt_u, fmt_l):
+        r = []
+        for n in range(1, NMAX + 1):
+            r.append(f'  | "U", {n} => ' + fmt_u(n))
+        for v in ("L", "D"):
+            r.append(f'  | "{v}", n => ' + fmt_l(v))
+        r.append("  | _, _ => none\n")
+        return r
+    L.append("def applySelf (v op : String) (n : Nat) (a : Array α) : Option (Array α) :=\n  match op with")
+    for _, nm in SELF_OPS:
+        L.append(f'  | "{nm}" => (match v, n with')
+        L += ["  " + x.rstrip("\n") for x in rows(lambda n: f"some (ofFn (U{n}.{nm} (toFn a)))", lambda v: f"some (ofFn ({v}.{nm} (n := n) (toFn a)))")]
+        L[-1] += ")"
+    L.append("  | _ => none\n")
+    for kinds, names, sig, app in (("EEb", CMP_E, "(a b : Array α)", "(toFn a) (toFn b)"), ("ESb", CMP_S, "(a : Array α) (c : α)", "(toFn a) c"),
+                                   ("SEb", [k for _, k in CMP_F], "(c : α) (a : Array α)", "c (toFn a)")):
+        L.append(f"def cmp{kinds[:2]} (v op : String) (n : Nat) {sig} : Option Bool :=\n  match op with")
+        for nm in names:
+            L.append(f'  | "{nm}" => (match v, n with')
+            L += ["  " + x.rstrip("\n") for x in rows(lambda n: f"some (U{n}.{nm} {app})", lambda v: f"some ({v}.{nm} (n := n) {app})")]
+            L[-1] += ")"
+        L.append("  | _ => none\n")
+    L.append("def factory0 (v op : String) (n : Nat) : Option (Array α) :=\n  match op with")
+    for nm in ("constZero", "constOne"):
+        L.append(f'  | "{nm}" => (match v, n with')
+        L += ["  " + x.rstrip("\n") for x in rows(lambda n: f"some (ofFn (U{n}.{nm} (α := α)))", lambda v: f"some (ofFn ({v}.{nm} (α := α) (n := n)))")]
+        L[-1] += ")"
+    L.append("  | _ => none\n")
+    L.append("def factory1 (v op : String) (n : Nat) (c : α) : Option (Array α) :=\n  match op with")
+    for nm in ("constX", "varXBase"):
+        L.append(f'  | "{nm}" => (match v, n with')
+        L += ["  " + x.rstrip("\n") for x in rows(lambda n: f"some (ofFn (U{n}.{nm} c))", lambda v: f"some (ofFn ({v}.{nm} (n := n) c))")]
+        L[-1] += ")"
+    L.append("  | _ => none\n")
+    L.append("/-- accepted `nVars` of `createConstant(nVars, c)` (`none`: any, the result is sized by nVars) -/")
+    L.append("def factoryArity (v : String) (n : Nat) : Option Int :=\n  match v, n with")
+    for n in range(1, NMAX + 1):
+        L.append(f'  | "U", {n} => U{n}.factoryArity')
+    L.append('  | "L", n => L.factoryArity n\n  | "D", n => D.factoryArity n\n  | _, _ => none\n')
+    def flag(key):
+        un = {extras_all[f"U{n}"][key] for n in range(1, NMAX + 1)}
+        if len(un) != 1:
+            raise TranslateError(f"{key}: the unrolled specialisations disagree")
+        t = lambda b: "true" if b else "false"
+        return f'  match v with\n  | "U" => {t(un.pop())}\n  | "L" => {t(extras_all["L"][key])}\n  | "D" => {t(extras_all["D"][key])}\n  | _ => false\n'
+    L.append("/-- `createConstant(c)` / `createVariable(c, varPos)` return (true) or throw (false) -/")
+    L.append("def hasCreateConstant1 (v : String) : Bool :=\n" + flag("createConstant1"))
+    L.append("def hasCreateVariable2 (v : String) : Bool :=\n" + flag("createVariable2"))
+    L.append("/-- `createBlank(x)` is value-initialised (statically sized) / unspecified (dynamic) -/")
+    L.append("def blankIsZero (v : String) : Bool :=\n" + flag("blankZero"))
     return "\n".join(L)
 
 
@@ -1231,6 +1724,40 @@ def obligations():
         sig = sig.replace("NN", "n + 1")
         L.append(f"theorem D_{op}_eq_loop {{n : Nat}} {sig} : D.{op} (n := n) {app} = L.{op} {app} := rfl")
     L.append("theorem D_ops_eq_loop {n : Nat} : (D.ops : ADOps α n) = L.ops := rfl")
+    L += ["", "/-! ### second operator set (`x op= x`, comparison operators, factories): every specialisation and the",
+          "    dynamic class compute the expressions of the generic loop form, for every carrier type -/",
+          "section second",
+          "variable [LT α] [DecidableLT α] [LE α] [DecidableLE α] [BEq α]", ""]
+    sig2 = {"E": ("(a : Fin (NN) → α)", "a"), "EEb": ("(a b : Fin (NN) → α)", "a b"), "ESb": ("(a : Fin (NN) → α) (c : α)", "a c"),
+            "SEb": ("(c : α) (a : Fin (NN) → α)", "c a"), "": ("", ""), "S": ("(c : α)", "c")}
+    fe = {"E": "funext fun a => {T} a", "EEb": "funext fun a => funext fun b => {T} a b", "ESb": "funext fun a => funext fun c => {T} a c",
+          "SEb": "funext fun c => funext fun a => {T} c a", "": "{T}", "S": "funext fun c => {T} c"}
+    def ob(prefix, n_txt, size_txt, tac_fn, tac_all):
+        for op, k in OPS2.items():
+            sig, app = sig2[k]
+            sig = sig.replace("NN", size_txt)
+            if k.endswith("b"):
+                L.append(f"theorem {prefix}_{op}_eq_loop {sig} : {prefix}.{op} {app} = L.{op} (n := {n_txt}) {app} := by")
+                L.append(f"  first | rfl | (unfold {prefix}.{op} L.{op}; congr 2; funext i; {tac_all}) | (unfold {prefix}.{op} L.{op}; congr 3; funext i; {tac_all})")
+            elif k == "":
+                L.append(f"theorem {prefix}_{op}_eq_loop : ({prefix}.{op} : Fin ({size_txt}) → α) = L.{op} (n := {n_txt}) := by")
+                L.append(f"  {tac_fn}")
+            else:
+                L.append(f"theorem {prefix}_{op}_eq_loop {sig} : {prefix}.{op} {app} = L.{op} (n := {n_txt}) {app} := by")
+                L.append(f"  {tac_fn}")
+        L.append(f"theorem {prefix}_ops2_eq_loop : ({prefix}.ops2 : ADOps2 α {n_txt}) = L.ops2 :=")
+        L.append("  ADOps2.ext " + " ".join("(" + fe[k].replace("{T}", f"{prefix}_{op}_eq_loop") + ")" for op, k in OPS2.items()))
+        L.append("")
+    for n in range(1, NMAX + 1):
+        L.append(f"/-! #### Evaluation{n}.hpp -/")
+        ob(f"U{n}", str(n), str(n + 1), "funext i; fin_cases i <;> rfl", "fin_cases i <;> rfl")
+    L.append("/-! #### DynamicEvaluation.hpp -/")
+    L.append("variable {n : Nat}")
+    ob("D", "n", "n + 1", "rfl", "rfl")
+    L.append("/-! #### `x op= x` (the argument aliases `*this`) computes `x op x`, in the loop form -/")
+    for op in ("add", "sub", "mul", "div"):
+        L.append(f"theorem L_{op}Self_eq (a : Fin (n + 1) → α) : L.{op}Self a = L.{op} a a := rfl")
+    L.append("end second")
     L += ["", "end OpmVerif.DenseAd.GenProofs", ""]
     return "\n".join(L)
 
